@@ -249,6 +249,93 @@ let () =
     let rs = Hashtbl.find rulesets id in
     plres (g_lex (re_auto rs) (re_start rs) (nat_of_int (Stdlib.List.length rs)) fuel inp))
 
+
+(* ---- reference LALR(1) construction, FIRST, resolution ---- *)
+let pcact = function
+  | CShift (t, prods) -> pi 0; pn t; plist pn prods
+  | CReduce p -> pi 1; pn p
+  | CAccept -> pi 2
+
+let () =
+  reg "lalr" (fun c ->
+    let id = int c in
+    let prec = Array.of_list (list int c) in
+    let assoc = Array.of_list (list bool c) in
+    let g = Hashtbl.find grams id in
+    let precf p = let i = int_of_nat p in if i < Array.length prec then nat_of_int prec.(i) else O in
+    let assocf p = let i = int_of_nat p in i < Array.length assoc && assoc.(i) in
+    let r = lalr_ref g precf assocf in
+    pb r.r_ok; pn r.r_lr1_states; pb r.r_conflicts;
+    plist (fun (_, items) -> plist (fun ((p, d), a) -> pn p; pn d; pn a) items) r.r_states;
+    plist (fun ((f, x), t) -> pn f; (match x with T i -> pi 1; pn i | NT i -> pi 0; pn i); pn t) r.r_trans;
+    plist (fun cr -> pn cr.c_state; pn cr.c_term; plist pcact cr.c_raw; plist pcact cr.c_res; pb cr.c_conflict) r.r_cells);
+  reg "firstgo" (fun c ->
+    let id = int c in
+    let syms = list (fun c -> let is_t = bool c in let i = nat c in if is_t then T i else NT i) c in
+    let g = Hashtbl.find grams id in
+    plist (fun o -> match o with None -> pi (-1) | Some t -> pn t) (first_go g syms));
+  reg "firstspec" (fun c ->
+    let id = int c in let n = nat c in
+    let g = Hashtbl.find grams id in
+    pb (nullable_spec g n); plist pn (first_spec g n))
+
+
+(* ---- Coq strings, token numbering ---- *)
+let coq_of_string (s : string) : coq_string =
+  let n = Stdlib.String.length s in
+  let rec go i =
+    if i >= n then EmptyString
+    else
+      let c = Char.code s.[i] in
+      let b k = (c lsr k) land 1 = 1 in
+      String (Ascii (b 0, b 1, b 2, b 3, b 4, b 5, b 6, b 7), go (i + 1)) in
+  go 0
+
+let string_of_coq (s : coq_string) : string =
+  let b = Buffer.create 16 in
+  let rec go = function
+    | EmptyString -> ()
+    | String (Ascii (b0, b1, b2, b3, b4, b5, b6, b7), r) ->
+      let v x k = if x then 1 lsl k else 0 in
+      Buffer.add_char b (Char.chr (v b0 0 + v b1 1 + v b2 2 + v b3 3 + v b4 4 + v b5 5 + v b6 6 + v b7 7));
+      go r in
+  go s; Buffer.contents b
+
+let word c = next c
+
+let rec ndecl c =
+  match int c with
+  | 0 -> DTok (coq_of_string (word c))
+  | 1 -> DExt (list (fun c -> coq_of_string (word c)) c)
+  | 2 -> DMode (list ndecl c)
+  | _ -> DOther
+
+let () =
+  reg "numbering" (fun c ->
+    let files = list (fun c -> list ndecl c) c in
+    let probes = list z c in
+    let ts = terminals files in
+    pi (Stdlib.List.length ts);
+    Stdlib.List.iter (fun t -> ps (string_of_coq t)) ts;
+    Stdlib.List.iter (fun p -> ps (string_of_coq (token_to_string ts p))) probes)
+
+
+(* ---- precedence climbing reference ---- *)
+let rec ser_etree = function
+  | TAtom id -> "A" ^ string_of_int (int_of_nat id)
+  | TBin (op, l, r) -> "B(" ^ string_of_int (int_of_nat op) ^ "," ^ ser_etree l ^ "," ^ ser_etree r ^ ")"
+  | TParen t -> "P(" ^ ser_etree t ^ ")"
+
+let () =
+  reg "climb" (fun c ->
+    let tbl = list (fun c -> let l = nat c in let r = bool c in { o_level = l; o_right = r }) c in
+    let toks = list (fun c -> match int c with
+      | 0 -> EAtom (nat c) | 1 -> EOp (nat c) | 2 -> ELParen | _ -> ERParen) c in
+    pb (uniformb tbl);
+    match climb tbl toks with
+    | Some t -> ps (ser_etree t); pb (well_grouped tbl t)
+    | None -> ps "none")
+
 let () =
   try
     while true do
